@@ -32,3 +32,22 @@ package lister
 //@ invariant [listed] forall j int :: 0 <= j && j < len(accounts) ==> accounts[j] != nil && accounts[j] in listing
 //@ invariant [own] forall k int :: 0 <= k && k < len(res.Accounts) ==> res.Accounts[k] != nil && fresh(res.Accounts[k]) && allocated(res.Accounts[k]) && allocated(res.Accounts[k].PublicKey) && (exists a any :: a in listing && res.Accounts[k].Name == shown(a) && bytes(res.Accounts[k].PublicKey) == pkOfAcc(a))
 //@ invariant [own-dist] forall k int :: 0 <= k && k < len(res.DistributedAccounts) ==> res.DistributedAccounts[k] != nil && fresh(res.DistributedAccounts[k]) && allocated(res.DistributedAccounts[k]) && allocated(res.DistributedAccounts[k].PublicKey) && (exists a any :: a in listing && res.DistributedAccounts[k].Name == shown(a) && bytes(res.DistributedAccounts[k].PublicKey) == pkOfAcc(a))
+
+// ---- construction: the object handed out has every collaborator the methods rely on ----
+//@ func (Parameter).apply
+//@ requires p != nil
+//@ modifies p.logLevel, p.lister
+
+//@ func parseAndCheckParameters
+// (the guard in the loop tests the slice, not the option: a nil option would panic; every caller passes non-nil options)
+//@ requires [options] forall i int :: 0 <= i && i < len(params) ==> params[i] != nil
+//@ ensures [err] result1 != nil ==> result0 == nil
+//@ ensures [ok] result1 == nil ==> result0 != nil && result0.lister != nil
+//@ loop #1
+//@ invariant [range] 0 <= _n && _n <= len(params)
+
+//@ func New
+//@ requires [options] forall i int :: 0 <= i && i < len(params) ==> params[i] != nil
+//@ modifies log
+//@ ensures [err] result1 != nil ==> result0 == nil
+//@ ensures [ok] result1 == nil ==> wiredListerHandler(result0)
